@@ -822,11 +822,101 @@ def run(prog, rep):
            "line %d: %s has %d elements and is subscripted with an index that reaches %d in %s" % (line(_bb[0][1]), _bb[0][2], _bb[0][3], _bb[0][4], _bb[0][0].name),
            _bb[0][1] if _bb else sorted(_bu.functions.values(), key=lambda f__: f__.loc[0])[0].loc[0])
     check_zero_init(rep, "C16.3", prog, ['pinifile.c'], 1)
+    trim_allocation(prog, rep)
+
+
+def _bounds(name, facts):
+    lo = hi = None
+    for (fk, fop, fv) in facts:
+        if fk != name or not isinstance(fv, int):
+            continue
+        if fop in ("==", ">=", ">"):
+            v = fv + (1 if fop == ">" else 0)
+            lo = v if lo is None else max(lo, v)
+        if fop in ("==", "<=", "<"):
+            v = fv - (1 if fop == "<" else 0)
+            hi = v if hi is None else min(hi, v)
+    return lo, hi
+
+
+def _diff_at_least(a, b, facts):
+    """The largest d in (1, 0) for which the facts of this path say a - b >= d; None when they say nothing of the kind."""
+    def holds(k):
+        return guards.lookup(facts, k) == 1
+    def fails(k):
+        return guards.lookup(facts, k) == 0
+    best = None
+    if holds("(%s>%s)" % (a, b)) or holds("(%s<%s)" % (b, a)) or fails("(%s<=%s)" % (a, b)) or fails("(%s>=%s)" % (b, a)):
+        best = 1
+    elif (holds("(%s>=%s)" % (a, b)) or holds("(%s<=%s)" % (b, a)) or fails("(%s<%s)" % (a, b)) or fails("(%s>%s)" % (b, a))
+          or holds("(%s==%s)" % (a, b)) or holds("(%s==%s)" % (b, a)) or fails("(%s!=%s)" % (a, b)) or fails("(%s!=%s)" % (b, a))):
+        best = 0
+    la, ha = _bounds(a, facts)
+    lb_, hb = _bounds(b, facts)
+    if la is not None and hb is not None:
+        best = la - hb if best is None else max(best, la - hb)
+    ld, hd = _bounds("(%s-%s)" % (a, b), facts)          # `if (a - b < 0)` tests the distance itself
+    if ld is not None:
+        best = ld if best is None else max(best, ld)
+    lr, hr = _bounds("(%s-%s)" % (b, a), facts)
+    if hr is not None:
+        best = -hr if best is None else max(best, -hr)
+    return best
+
+
+def trim_allocation(prog, rep):
+    # C16.7 trim:sized - the trim helper every stored value goes through (p_strchomp) sizes its result as the distance of two cursors
+    # plus a constant; the allocator returns NULL for 0 bytes, and NULL is what the parser takes for "drop this key".  On every path
+    # to the allocation the tests passed so far order the cursors so that the size is at least 1.  Judged only when the size has
+    # the form (a - b) + k over two locals (other forms are somebody else's arithmetic and are left alone).
+    su = prog.unit("pstring.c")
+    fn = su.fn("p_strchomp")
+    judged = []
+    for (b, i, c) in fn.calls():
+        if c.get("callee") not in ("p_malloc", "p_malloc0") or not c.get("args"):
+            continue
+        e = strip_casts(c["args"][0])
+        if e is not None and e["k"] == "ref" and e.get("decl") == "local":
+            e = strip_casts(fn.resolve(e) or e)
+        k_ = 0
+        if e is not None and e["k"] == "bin" and e["op"] == "+" and cv(e["r"]) is not None:
+            k_, e = cv(e["r"]), strip_casts(e["l"])
+        elif e is not None and e["k"] == "bin" and e["op"] == "+" and cv(e["l"]) is not None:
+            k_, e = cv(e["l"]), strip_casts(e["r"])
+        if e is None or e["k"] != "bin" or e["op"] != "-":
+            continue
+        l_, r_ = strip_casts(e["l"]), strip_casts(e["r"])
+        if l_ is None or r_ is None or l_["k"] != "ref" or r_["k"] != "ref" or l_.get("decl") != "local" or r_.get("decl") != "local":
+            continue
+        judged.append((c, l_["name"], r_["name"], k_))
+    for (c, a, b_, k_) in judged:
+        bad = []
+
+        def on_stmt(st, blk, i, stmt, c=c, a=a, b_=b_, k_=k_):
+            if any(x is c for x in calls(stmt)):
+                d = _diff_at_least(a, b_, st)
+                if d is None or d + k_ < 1:
+                    bad.append(line(c))
+            return [guards.transfer(st, stmt)]
+        Flow(fn, [guards.EMPTY], on_stmt, lambda st, blk, to, on: guards.edge_assume(st, blk, on)).run()
+        rep.ob("C16.7", fn, "trim:sized", not bad,
+               "the result is sized (%s - %s) + %d and every path to the allocation has ordered the two cursors: at least one byte" % (a, b_, k_) if not bad else
+               "line %d: the result is sized (%s - %s) + %d, but a path reaches the allocation on which no test orders %s and %s: for an all-blank string the "
+               "cursors cross, the size is 0, the allocator returns NULL and the INI parser drops the key" % (bad[0], a, b_, k_, a, b_), c)
 
 # generic robustness battery: renaming every local/parameter in these files must not change any verdict
 RENAME_LOCALS = ['src/pinifile.c']
 
 SELFTEST = [
+    dict(id="strchomp-all-blank-returns-null", file="src/pstring.c", expect="C16.7",
+         old="\tif (pos_end < pos_start)\n\t\treturn p_strdup (\"\\0\");", new="\tif (pos_end < 0)\n\t\treturn p_strdup (\"\\0\");"),
+    dict(id="strchomp-distance-tested-neutral", file="src/pstring.c", expect=None,
+         old="\tif (pos_end < pos_start)\n\t\treturn p_strdup (\"\\0\");", new="\tif (pos_end - pos_start < 0)\n\t\treturn p_strdup (\"\\0\");"),
+    dict(id="strchomp-nested-positive-form-neutral", file="src/pstring.c", expect=None,
+         old="\tif (pos_end < pos_start)\n\t\treturn p_strdup (\"\\0\");\n\n\tif (pos_end == pos_start && isspace (* ((const puchar *) (str + pos_end))))\n\t\treturn p_strdup (\"\\0\");",
+         new="\tif (!(pos_end >= pos_start))\n\t\treturn p_strdup (\"\\0\");\n\telse if (pos_end == pos_start && isspace (* ((const puchar *) (str + pos_end))))\n\t\treturn p_strdup (\"\\0\");"),
+    dict(id="strchomp-order-test-swapped-neutral", file="src/pstring.c", expect=None,
+         old="\tif (pos_end < pos_start)\n\t\treturn p_strdup (\"\\0\");", new="\tif (pos_start > pos_end)\n\t\treturn p_strdup (\"\\0\");"),
     dict(id="line-clamp-one-short", file="src/pinifile.c", expect="C16.1", count=1,
          old="\t\tif (P_UNLIKELY (strlen (dst_line) > P_INI_FILE_MAX_LINE))\n\t\t\tdst_line[P_INI_FILE_MAX_LINE] = '\\0';",
          new="\t\tif (P_UNLIKELY (strlen (dst_line) >= P_INI_FILE_MAX_LINE))\n\t\t\tdst_line[P_INI_FILE_MAX_LINE - 1] = '\\0';"),
